@@ -471,7 +471,13 @@ class Exec(object):
                     except AttributeError:
                         return self.raise_(path, AttributeError, name)
                     if isinstance(raw, (staticmethod, classmethod)):
-                        raise Unsupported('static/classmethod %s' % name)
+                        fn = raw.__func__
+                        fv = self.lift_obj(getattr(fn, '__wrapped__', fn) if not isinstance(fn, types.FunctionType) else fn)
+                        if isinstance(fv, VFunc):
+                            if isinstance(raw, classmethod):
+                                fv = VFunc(fv.node, fv.modname, fv.qualname, bound=obj, pyfunc=fv.pyfunc)
+                            return [(path, fv)]
+                        raise Unsupported('static/classmethod %s without source' % name)
                     return [(path, self.lift_obj(raw))]
             else:
                 cls = obj.cls
